@@ -30,10 +30,12 @@ func scanStringLit(data []byte, quoted bool) [][]byte {
         # possible, even if the input is invalid. The caller will then verify
         # whether each token is valid and generate suitable error messages
         # if not.
-        UnicodeEscapeShort = "\\u" . Hex{0,4};
-        UnicodeEscapeLong = "\\U" . Hex{0,8};
+        # \x and \X are this fork's byte-string escapes; they are scanned
+        # exactly like \u and \U and told apart by the parser.
+        UnicodeEscapeShort = "\\" . ('u'|'x') . Hex{0,4};
+        UnicodeEscapeLong = "\\" . ('U'|'X') . Hex{0,8};
         UnicodeEscape = (UnicodeEscapeShort | UnicodeEscapeLong);
-        SimpleEscape = "\\" . (AnyUTF8 - ('U'|'u'))?;
+        SimpleEscape = "\\" . (AnyUTF8 - ('U'|'u'|'X'|'x'))?;
         TemplateEscape = ("$" . ("$" . ("{"?))?) | ("%" . ("%" . ("{"?))?);
         Newline = ("\r\n" | "\r" | "\n");
 
